@@ -20,9 +20,21 @@ impl Duration {
     pub fn checked_add(&self, o: &Duration) -> (r: Option<Duration>)
         ensures r matches Some(d) ==> d.ns() == self.ns() + o.ns(),
     { unimplemented!() }
+    // chrono TimeDelta::new(secs, nanos): None when nanos >= 1e9 or out of range
+    #[verifier::external_body]
+    pub fn new(secs: i64, nanos: u32) -> (r: Option<Duration>)
+        ensures r matches Some(d) ==> nanos < 1_000_000_000 && d.ns() == secs * 1_000_000_000 + nanos,
+    { unimplemented!() }
 }
+pub assume_specification[ i64::rem_euclid ](x: i64, d: i64) -> (r: i64)
+    requires d != 0, !(x == i64::MIN && d == -1),
+    ensures d > 0 ==> r as int == (x as int) % (d as int);       // Verus' int % is Euclidean
+pub assume_specification[ i64::div_euclid ](x: i64, d: i64) -> (r: i64)
+    requires d != 0, !(x == i64::MIN && d == -1),
+    ensures d > 0 ==> r as int == (x as int) / (d as int);
 pub struct TimeDelta { pub months: i32, pub inner: Duration }
 
+//@const crate=tea-time name=NANOS_PER_SEC
 //@const crate=tea-time name=NANOS_PER_MICRO
 //@const crate=tea-time name=NANOS_PER_MILLI
 //@const crate=tea-time name=SECS_PER_MINUTE
@@ -56,7 +68,13 @@ pub struct TimeDelta { pub months: i32, pub inner: Duration }
 //@replace duration[start..i] => duration.slice(start, i)
 //@replace .parse::<i64>() => .parse_i64()
 //@replace String::with_capacity => UnitBuf::with_capacity
-//@closure 1 mode=annotate params="d: Duration" ret="(o: Option<Duration>)"
+//@closure 1 mode=annotate key="checked_add" params="d: Duration" ret="(o: Option<Duration>)"
+//@closure 1 spec
+            ensures o matches Some(x) ==> x.ns() == d.ns() + nsecs
+//@at let duration after
+    // the fixed part of the result is the accumulated seconds plus the accumulated sub-second terms (the last step of "parses
+    // to the sum of its terms"; the accumulation itself is add_term / add_months, proved exact above)
+    assert(duration.ns() == secs * 1_000_000_000 + nsecs);            // #C18 fixed_part_is_seconds_plus_sub_second_terms
 //@spec
     requires
         duration.wf(),            // the type invariant of &str (valid UTF-8 = well-formed char offsets)
